@@ -405,6 +405,41 @@ func c15Run(c *engine.Ctx) {
 			}
 		}
 	})
+	// every polyline of 4 (thorough: also 5) vertices on the 3x3 grid - repeated vertices at any
+	// position included (a zero-length first, middle or last segment, a line that folds back) - x
+	// every query point of the grid, in strides 2..5
+	var g9 [][2]float64
+	for x := 0; x < 3; x++ {
+		for y := 0; y < 3; y++ {
+			g9 = append(g9, [2]float64{float64(x), float64(y)})
+		}
+	}
+	maxV := 4
+	if c.Thorough() {
+		maxV = 5
+	}
+	c.Parallel(81, func(i int) {
+		var rec func(line [][2]float64)
+		rec = func(line [][2]float64) {
+			if len(line) >= 4 {
+				for qi, q := range g9 {
+					v := []ref.F{ref.F(q[0]), ref.F(q[1])}
+					for _, p := range line {
+						v = append(v, ref.F(p[0]), ref.F(p[1]))
+					}
+					c.Count("small_polyline_queries", 1)
+					c15Exec(c, c15Case{Mode: "pt-line2", V: v, Stride: 2 + (i+qi+len(line))%4})
+				}
+			}
+			if len(line) == maxV {
+				return
+			}
+			for _, p := range g9 {
+				rec(append(append([][2]float64{}, line...), p))
+			}
+		}
+		rec([][2]float64{g9[i/9], g9[i%9]})
+	})
 	// very long line strings (beyond any block size a divided scan might use): the query point
 	// beside the middle of EVERY segment in turn, in both directions of the line. One library call
 	// per query against the exact distance to the three segments around it (all others are farther
